@@ -28,6 +28,9 @@ import time
 import traceback
 
 VERIF = os.path.dirname(os.path.dirname(os.path.abspath(__file__)))
+# evidence/ and replays/ live in /verif; the seeded-change campaign redirects them so that runs against a
+# deliberately broken scratch tree never overwrite the evidence of the real tree
+OUT = os.environ.get("VERIF_OUT") or VERIF
 ROOT = os.path.realpath(os.environ.get("SCODA_VERIF_ROOT", "/repo"))
 NPROC = int(os.environ.get("VERIF_JOBS", "0")) or min(16, os.cpu_count() or 1)
 MAX_REPORT = 5  # VIOLATION lines printed per run (shortest / simplest first)
@@ -342,7 +345,7 @@ def validate_evidence(path):
 
 
 def write_evidence(pid, tier, seed, tot: Total, mod, ctx, wall, nviol, known):
-    path = os.path.join(VERIF, "evidence", f"{pid}.json")
+    path = os.path.join(OUT, "evidence", f"{pid}.json")
     os.makedirs(os.path.dirname(path), exist_ok=True)
     samples = tot.samples[: 6]
     k = len(tot.samples)
@@ -454,9 +457,9 @@ def _run_check(pid, tier, seed, mod, ctx, t0):
     if tot.caps_hit:
         raise HarnessError(f"cap hit before the promised bound was completed: {tot.caps_hit}")
     if confirmed:
-        os.makedirs(os.path.join(VERIF, "replays", pid), exist_ok=True)
+        os.makedirs(os.path.join(OUT, "replays", pid), exist_ok=True)
         for v in confirmed:
-            rp = os.path.join(VERIF, "replays", pid, digest([v.sig, v.case]) + ".json")
+            rp = os.path.join(OUT, "replays", pid, digest([v.sig, v.case]) + ".json")
             with open(rp, "w") as f:
                 json.dump({"property": pid, "tier": tier, "seed": seed, "signature": v.sig, "case": v.case,
                            "detail": v.detail, "tags": v.tags}, f, indent=1, default=str)
